@@ -644,6 +644,101 @@ def d19():
 ])
 
 
+@fix('D37', "fix: dividing an integer vector by an integer scalar truncates toward zero\n\nVECTOR_DIV_SCALAR used Python's true division for every element type, so\n`int3(7, 8, 9) / 2` returned [3.5, 4.0, 4.5] in a value typed int3; the scalar\nDIV arm already divides integers like C.")
+def d37():
+    patch('nsl/VM.py', [(
+"""                        case LinearIR.OpCode.VECTOR_DIV_SCALAR:
+                            localScope[ref] = [v / op2 for v in op1]""",
+"""                        case LinearIR.OpCode.VECTOR_DIV_SCALAR:
+                            if isinstance(
+                                instruction.Type.ElementType, LinearIR.IntegerType
+                            ):
+                                # Integer division truncates toward zero
+                                localScope[ref] = [
+                                    -(abs(v) // abs(op2))
+                                    if (v < 0) != (op2 < 0)
+                                    else abs(v) // abs(op2)
+                                    for v in op1
+                                ]
+                            else:
+                                localScope[ref] = [v / op2 for v in op1]""")])
+
+@fix('D38', "fix: scalar * matrix is lowered row by row like matrix * scalar\n\nTyping accepts a product with the scalar on the left, but v_BinaryExpression\nonly handled the matrix on the left, so `s * m` fell through to\nFromOperation, which has no matrix case, and compilation died with an\ninternal compiler error.")
+def d38():
+    patch('nsl/passes/LowerToIR.py', [(
+"""        assert isinstance(left, LinearIR.Value)
+        assert isinstance(right, LinearIR.Value)
+
+        if left.Type.IsMatrix() and right.Type.IsMatrix():""",
+"""        assert isinstance(left, LinearIR.Value)
+        assert isinstance(right, LinearIR.Value)
+
+        if (
+            left.Type.IsScalar()
+            and right.Type.IsMatrix()
+            and be.GetOperation() == op.Operation.MUL
+        ):
+            # S * M is lowered row by row like M * S (both operands have
+            # been evaluated already, in source order)
+            left, right = right, left
+
+        if left.Type.IsMatrix() and right.Type.IsMatrix():""")])
+
+@fix('D39', "fix: matrix * vector is lowered to one dot product per row\n\nThe branch for a matrix times a vector was an empty `pass`, so the product fell\nthrough to a component-wise VECTOR_MUL of a matrix and a vector and the VM\nraised TypeError on a program the front end accepts.")
+def d39():
+    patch('nsl/passes/LowerToIR.py', [(
+"""        elif left.Type.IsMatrix() and right.Type.IsVector():
+            # M <op> V, needs to get lowered to matrix-vector multiply
+            pass
+""",
+"""        elif left.Type.IsMatrix() and right.Type.IsVector():
+            # M * V: one dot product of a matrix row and the vector per
+            # component of the result
+            leftRowType = left.Type.RowType
+            resultType = ctx.AdaptType(be.GetType())
+            components = []
+            for row in range(left.Type.RowCount):
+                leftRow = LinearIR.MatrixAccessInstruction(
+                    leftRowType,
+                    left,
+                    ctx.Function.CreateConstant(LinearIR.IntegerType(), row),
+                )
+                ctx.BasicBlock.AddInstruction(leftRow)
+
+                products = LinearIR.BinaryInstruction(
+                    LinearIR.OpCode.VECTOR_MUL, leftRowType, leftRow, right
+                )
+                ctx.BasicBlock.AddInstruction(products)
+
+                total = None
+                for column in range(leftRowType.Size):
+                    product = LinearIR.VectorAccessInstruction(
+                        resultType.ElementType,
+                        products,
+                        ctx.Function.CreateConstant(
+                            LinearIR.IntegerType(), column
+                        ),
+                    )
+                    ctx.BasicBlock.AddInstruction(product)
+                    if total is None:
+                        total = product
+                    else:
+                        total = LinearIR.BinaryInstruction(
+                            LinearIR.OpCode.ADD,
+                            resultType.ElementType,
+                            total,
+                            product,
+                        )
+                        ctx.BasicBlock.AddInstruction(total)
+                components.append(total)
+
+            result = LinearIR.ConstructPrimitiveInstruction(
+                resultType, components
+            )
+            ctx.BasicBlock.AddInstruction(result)
+            return result
+""")])
+
 @fix('D21', "fix: %, && and || on vectors and matrices are lowered and executed component-wise\n\nTyping accepts `a % b`, `a && b`, `a || b` for two vectors or two matrices of the\nsame shape, but FromOperation had no vector opcode for them (VECTOR_MOD was declared\nbut unused), so lowering died with KeyError.")
 def d21():
     patch('nsl/LinearIR.py', [
